@@ -254,7 +254,20 @@ func c13PointsBody(t *testing.T, nBatches int, twoPoint bool, storedFlags ...boo
 	flags := len(storedFlags) > 0 && storedFlags[0]
 	// third optional flag: configuration updates at run time (single-condition rules only)
 	cfgUpd := len(storedFlags) > 1 && storedFlags[1]
+	// fourth optional flag: conditions that filter on key "0", points with keys "0", "1", "2" (never "")
+	keyZero := len(storedFlags) > 2 && storedFlags[2]
 	conds := c13PointConds()
+	if keyZero {
+		var cz []c13Cond
+		for _, c := range conds {
+			if c.c.PointKey == "1" {
+				c.c.PointKey = "0"
+				c.name = strings.Replace(c.name, `key="1"`, `key="0"`, 1)
+				cz = append(cz, c)
+			}
+		}
+		conds = cz
+	}
 	// rule configurations: every single condition; pairs over a reduced set
 	type cfg struct{ idx []int }
 	var cfgs []cfg
@@ -275,7 +288,7 @@ func c13PointsBody(t *testing.T, nBatches int, twoPoint bool, storedFlags ...boo
 	if flags {
 		cfgs = append(cfgs, cfg{nil})
 	}
-	if cfgUpd {
+	if cfgUpd || keyZero {
 		cfgs = cfgs[:len(conds)]
 	}
 	// point alphabet
@@ -285,7 +298,11 @@ func c13PointsBody(t *testing.T, nBatches int, twoPoint bool, storedFlags ...boo
 	}
 	for _, node := range []string{"n1", "n2"} {
 		for _, typ := range []string{"value", "other"} {
-			for _, key := range []string{"", "1"} {
+			keys := []string{"", "1"}
+			if keyZero {
+				keys = []string{"0", "1", "2"}
+			}
+			for _, key := range keys {
 				for _, v := range []float64{4, 5, 6, 0, 1} {
 					pts = append(pts, struct {
 						node string
@@ -587,6 +604,9 @@ func TestC13(t *testing.T) {
 		nb2 := 1 // (two batches of up to two points would be 17 M sequences per rule configuration)
 		r.Explore(mc.Config{Name: fmt.Sprintf("point-conditions-two-point-batches-b%d", nb2), Serial: true, SplitDepth: 2,
 			Rule: fmt.Sprintf("same rule configurations x %d batch(es) of 1 or 2 points from one node (all ordered pairs of the 64-point alphabet): the latest matching point of a batch decides, whatever the earlier ones did", nb2)}, c13PointsBody(t, nb2, true))
+		r.Explore(mc.Config{Name: "point-conditions-key-zero-b2", Serial: true, SplitDepth: 2,
+			Rule: "the 36 single point conditions that filter on key \"0\" x all sequences of 2 single-point batches over points with keys \"0\", \"1\", \"2\" (2 nodes x 2 types x 3 keys x 8 values/texts): only points whose key is \"0\" may move the condition"},
+			c13PointsBody(t, 2, false, false, false, true))
 		r.Explore(mc.Config{Name: "point-conditions-config-updates-b2", Serial: true, SplitDepth: 2,
 			Rule: "each of the 72 single point conditions x all sequences of 2 steps over the 64-point alphabet plus {the condition's comparison value set to 4.5, to 5.5 while the rule runs}: after an update the rule evaluates a trigger point of its own and later points are compared with the new value"},
 			c13PointsBody(t, 2, false, false, true))
@@ -606,6 +626,7 @@ func init() {
 	bodies["C13/point-conditions-b3"] = func(t *testing.T) mc.Body { return c13PointsBody(t, 3, false) }
 	bodies["C13/point-conditions-two-point-batches-b1"] = func(t *testing.T) mc.Body { return c13PointsBody(t, 1, true) }
 	bodies["C13/point-conditions-two-point-batches-b2"] = func(t *testing.T) mc.Body { return c13PointsBody(t, 2, true) }
+	bodies["C13/point-conditions-key-zero-b2"] = func(t *testing.T) mc.Body { return c13PointsBody(t, 2, false, false, false, true) }
 	bodies["C13/point-conditions-config-updates-b2"] = func(t *testing.T) mc.Body { return c13PointsBody(t, 2, false, false, true) }
 	bodies["C13/point-conditions-stored-flags-b1"] = func(t *testing.T) mc.Body { return c13PointsBody(t, 1, false, true) }
 	bodies["C13/schedule-conditions-s4"] = func(t *testing.T) mc.Body { return c13SchedBody(t, 4) }
